@@ -92,8 +92,9 @@ def run(tier, seed, replay=None):
         for t in texts_for(r["prog"], trng, 60 if tier == "quick" else 200):
             sa, sb = fa.shape(t), fb.shape(t)
             stats["texts"] += 1
-            ka = [(s["gid"], s["before"], s["after"]) for s in sa] if sa is not None else None
-            kb = [(s["gid"], s["before"], s["after"]) for s in sb] if sb is not None else None
+            # (positions too: a positioning pass that is skipped leaves the glyphs where they are)
+            ka = [(s["gid"], s["before"], s["after"], round(s["x"], 1), round(s["y"], 1)) for s in sa] if sa is not None else None
+            kb = [(s["gid"], s["before"], s["after"], round(s["x"], 1), round(s["y"], 1)) for s in sb] if sb is not None else None
             if ka != kb:
                 d = harness.save_case(rep, r, r["name"] + "-shape", extra_files=("outp.ttf",))
                 rep.violation(r["name"] + "-shape", {"case": r["name"], "text_codepoints": t, "default_build": ka, "minus_p_build": kb,
